@@ -42,11 +42,23 @@ func init() {
 type peerNet struct {
 	mu    sync.Mutex
 	store map[string]*pb.InternalBlock
+	// blocks the node's miner announced (SENDBLOCK carries the block, NEW_BLOCKID its id), decoded from the message
+	sent []*pb.InternalBlock
 }
 
 func (n *peerNet) Start() {}
 func (n *peerNet) Stop()  {}
-func (n *peerNet) SendMessage(xctx.XContext, *protos.XuperMessage, ...p2p.OptionFunc) error {
+func (n *peerNet) SendMessage(_ xctx.XContext, msg *protos.XuperMessage, _ ...p2p.OptionFunc) error {
+	switch msg.GetHeader().GetType() {
+	case protos.XuperMessage_SENDBLOCK, protos.XuperMessage_NEW_BLOCKID:
+		blk := &pb.InternalBlock{}
+		if err := p2p.Unmarshal(msg, blk); err != nil {
+			return err
+		}
+		n.mu.Lock()
+		n.sent = append(n.sent, blk)
+		n.mu.Unlock()
+	}
 	return nil
 }
 func (n *peerNet) SendMessageWithResponse(ctx xctx.XContext, msg *protos.XuperMessage, opts ...p2p.OptionFunc) ([]*protos.XuperMessage, error) {
@@ -79,8 +91,8 @@ type esim struct {
 	*xsim
 	net     *peerNet
 	miner   *miner.Miner
-	walks   int64 // successful walks whose re-admission goroutine has started
-	recover int64 // re-admission goroutines finished
+	walks   *int64 // successful walks whose re-admission goroutine has started
+	recover *int64 // re-admission goroutines finished
 }
 
 func (e *esim) attach() error {
@@ -108,9 +120,9 @@ func (e *esim) hook() {
 	state.VerifHook = func(site string) {
 		switch site {
 		case "walk_recover_start":
-			atomic.AddInt64(&e.walks, 1)
+			atomic.AddInt64(e.walks, 1)
 		case "recover_done":
-			atomic.AddInt64(&e.recover, 1)
+			atomic.AddInt64(e.recover, 1)
 		}
 	}
 }
@@ -118,7 +130,7 @@ func (e *esim) hook() {
 // quiesce waits until every re-admission goroutine started by a walk has finished.
 func (e *esim) quiesce() error {
 	deadline := time.Now().Add(20 * time.Second)
-	for atomic.LoadInt64(&e.walks) != atomic.LoadInt64(&e.recover) {
+	for atomic.LoadInt64(e.walks) != atomic.LoadInt64(e.recover) {
 		if time.Now().After(deadline) {
 			return fmt.Errorf("re-admission goroutine did not finish")
 		}
@@ -325,7 +337,7 @@ func engineReplay(args []string) error {
 		if err != nil {
 			return err
 		}
-		e := &esim{xsim: xs, net: &peerNet{store: map[string]*pb.InternalBlock{}}}
+		e := &esim{xsim: xs, net: &peerNet{store: map[string]*pb.InternalBlock{}}, walks: new(int64), recover: new(int64)}
 		e.hook()
 		if err := e.attach(); err != nil {
 			return err
